@@ -288,6 +288,54 @@ Fixpoint mon_reader (lim : option (Z * Z * Z * Z)) (c : Z) (pd : option (option 
   | _, _ => true
   end.
 
+(* Resume clause (reader mode): a reader is never left sleeping past what the CURRENT limit
+   requires.  The monitor keeps the bucket in effect [sb] — installed full by the poll that
+   picks up a (valid) reconfiguration, then debited by every OBSERVED read exactly as
+   Bucket::consume debits it — and checks every poll that was observed Pending although the
+   client had input: the bucket in effect must be empty (fill <= 0) and the poll must come
+   before the first refill instant of that bucket's own period grid at which its fill is
+   positive again (timer granularity: [fired]).  *)
+Definition first_positive (b : bucket) : Z :=
+  last_fill b + ((- fill b) / refill b + 1) * period b.
+
+Definition pending_ok (sb : option bucket) (avail now : Z) : bool :=
+  (avail =? 0) ||
+  match sb with
+  | Some b => (fill b <=? 0) && negb (fired (first_positive b) now)
+  | None => false          (* no limit in effect: nothing to wait for *)
+  end.
+
+Fixpoint mon_resume (sb : option bucket) (pd : option (option cfg))
+         (now : Z) (es : list ev) (os : list obs) : bool :=
+  match es, os with
+  | Advance dt :: es', _ :: os' => mon_resume sb pd (now + dt) es' os'
+  | Reconfig cf :: es', _ :: os' => mon_resume sb (Some cf) now es' os'
+  | Poll avail cap :: es', o :: os' =>
+      let sb1 :=
+        match pd with
+        | None => sb
+        | Some cf => match from_config now cf with
+                     | Ok b => b            (* the new limit takes effect with a full bucket *)
+                     | _ => sb              (* invalid update: ignored *)
+                     end
+        end in
+      match o with
+      | OPoll None => pending_ok sb1 avail now && mon_resume sb1 None now es' os'
+      | OPoll (Some n) =>
+          match sb1 with
+          | None => mon_resume None None now es' os'
+          | Some b =>
+              match consume b now n with
+              | Ok (b', _) => mon_resume (Some b') None now es' os'
+              | _ => true
+              end
+          end
+      | _ => mon_resume sb1 None now es' os'
+      end
+  | _ :: es', _ :: os' => mon_resume sb pd now es' os'
+  | _, _ => true
+  end.
+
 (* The property's quantifier: values of the Rust types.  i64 parameters, a
    Duration, non-negative time advances, usize byte counts, a read buffer of
    at most isize::MAX bytes, NonZeroU32 limits. *)
@@ -323,6 +371,10 @@ Definition monitor (i : input) (o : output) : bool :=
       | (SReader cf, es) =>
           match lim_of 0 cf with
           | Ok l => mon_reader l 0 None 0 es os
+          | _ => true
+          end &&
+          match from_config 0 cf with
+          | Ok sb => mon_resume sb None 0 es os
           | _ => true
           end
       end
